@@ -222,6 +222,16 @@ def run_case(case):
                 fig = f(ds, xname, yarg, zarg, **extra, **opts)
             check_xy(case, ds, fig, kind, xname, multi, extra, opts)
         elif kind == "histogram":
+            if case.get("xlims_frac"):
+                # the axis shows only part of the data range: what is binned
+                # (every finite value) does not depend on that
+                fin_ = ds["y"].values[np.isfinite(ds["y"].values)]
+                if multi:
+                    f2_ = ds["y2"].values
+                    fin_ = np.concatenate([fin_, f2_[np.isfinite(f2_)]])
+                lo_, hi_ = float(fin_.min()), float(fin_.max())
+                w_ = (hi_ - lo_) * case["xlims_frac"]
+                opts["xlims"] = (lo_ + w_, hi_ - w_ / 2)
             with under_test(kind):
                 fig = x.histogram(ds, ["y", "y2"] if multi else "y",
                                   z=None if multi else "z", **opts)
@@ -576,6 +586,7 @@ def strategy(draw):
         case["nan_series"] = None
         case["p_nan"] = min(case["p_nan"], 0.2)
         case["bins"] = draw(st.sampled_from([None, 5, 12]))
+        case["xlims_frac"] = draw(st.sampled_from([None, None, 0.2, 0.35]))
         case["nx"] = 6
         return case
     if kind in ("lineplot", "scatter"):
